@@ -241,8 +241,17 @@ PROPS['C10'] = dict(
         ('BitFacts', 'unpack_fields_bits', 'C10 parse direction: the bit string of those bytes is the concatenation of the field patterns.'),
         ('BitLaws', 'law_bytesinteger_bitwise_parse', 'Interpreter level, every width n: Bitwise(BitsInteger(8n, signed)) parses as BytesInteger(n, signed).'),
         ('BitLaws', 'law_bytesinteger_bitwise_short', '... and both reject short input with StreamError.'),
+        ('BitLaws', 'law_bitsinteger_bytewise_parse', 'The island law, every width n and EITHER signedness, anywhere in a bit stream: Bytewise(BytesInteger(n, signed)) reads what BitsInteger(8n, signed) reads and leaves the bit stream at the same place.'),
     ],
     examples='''
+(* a signed three-byte integer as an island between two nibbles: ef ff ff f5 holds -1 *)
+Example C10_ex_signed_island :
+  parse_bytes (CTransformed (CStruct [CRenamed [x68] (CBitsInt (XConst (VInt 4)) false false);
+                                      CRenamed [x76] (CTransformed (CBytesInt (XConst (VInt 3)) true false) BFbits2bytes (Some 24%Z) BFbytes2bits (Some 24%Z));
+                                      CRenamed [x74] (CBitsInt (XConst (VInt 4)) false false)])
+                 BFbytes2bits (Some 4%Z) BFbits2bytes (Some 4%Z)) [] [xef; xff; xff; xf5] =
+    Ok (VDict [([x68], VInt 14); ([x76], VInt (-1)); ([x74], VInt 5)]).
+Proof. vm_compute; reflexivity. Qed.
 Example C10_ex_pack :
   build_bytes (CTransformed (CStruct [CRenamed [x61] (CBitsInt (XConst (VInt 3)) false false); CRenamed [x62] (CBitsInt (XConst (VInt 13)) true false)])
                  BFbytes2bits (Some 2%Z) BFbits2bytes (Some 2%Z))
